@@ -340,11 +340,12 @@ PROFILES = {
     "C05": dict(versions=[5, 5, 4], shared=0.15, qos=[0, 1], retain=0.7, empty_payload=0.25, rh=[0, 1, 2], topics=gen.TOPICS[:5],
                 weights=dict(subscribe=8, unsubscribe=1, publish=8, disconnect=1, connect=1, resub_clean=2), retain_avail=[1, 1, 1, 0]),
     "C06": dict(versions=[5, 5, 4], shared=0.6, qos=[0, 1, 2], clients=["c1", "c2", "c3", "c4", "c5"], p_clean=0.8,
-                weights=dict(subscribe=8, unsubscribe=1, publish=10, disconnect=1, connect=2)),
+                weights=dict(subscribe=8, unsubscribe=1, publish=10, disconnect=1, connect=2, foreign_unsub=2)),
     "C07": dict(versions=[5, 4, 3], shared=0.1, qos=[0, 1, 2], sys_topics=0.15, bad_filters=0.15, acl=3, p_single_filter=0.5, p_rel=0.6,
                 weights=dict(subscribe=5, unsubscribe=3, publish=9, disconnect=1, connect=1, dup_publish=3)),
-    "C17": dict(versions=[5, 5, 4], shared=0.1, qos=[0, 1, 2], retain=0.4, sys_topics=0.1, acl=6, wills=0.5, obscure=[False, False, True],
-                weights=dict(subscribe=6, unsubscribe=1, publish=8, disconnect=3, connect=3)),
+    "C17": dict(versions=[5, 5, 4], shared=0.1, qos=[0, 1, 2], retain=0.4, sys_topics=0.1, acl=6, wills=0.5, will_delay=[0, 0, 20], sei=[0, 30, 300],
+                obscure=[False, False, True], ticks=["wills", "wills", "clients"], dts=[0, 40, 400],
+                weights=dict(subscribe=6, unsubscribe=1, publish=8, disconnect=3, connect=3, tick=2)),
 }
 
 
